@@ -28,6 +28,16 @@ CHECKS = {
    text="Theorems: steady_flux_constant, steady_profile (T_i = T_1 + Phi * sum 1/r_{m+1/2}, the midpoint-rule image of the logarithmic profile), steady_fixed_fixed, steady_flux_outer, steady_conv_inner, transient_nonexpansive. Tied to srlife by the captured-system correspondence in steady and transient mode including consistency of the solver's Jacobian with its residual for every wall kind; all 20 inner x outer kind pairings are run on the real solver (accepted on their wall), the 16 well-posed ones against the exact logarithmic profile at two resolutions (observed order >= 1.8, second order for fixed/fixed), and long transients against the steady-mode solution.",
    note="Trusted: Lean kernel + Mathlib; harness; the O(dr^2)/O(dr) closeness of the discrete profile to ln r is measured on real solves, not proved (stated as stretch in DESIGN).",
    design="4/C13"),
+ "C17": dict(
+   technique="Lean 4 proof (induction on the iteration budget for five loop models, all miter >= 0, all oracle sequences incl. NaN/inf) + translator regenerating the parameter-plumbing terms from the sources each run (obligations by reflection) + exact scripted-oracle correspondence of every real loop",
+   text="Theorems: <loop>_returns_converged / _exhaust_raises / _nan_never_ok for solvers.newton (also SpringNetwork.solve), the FD thermal step, FlowPath.solve, the Picard loop and the FE Newton loop; plumbing_identity for eight components and newton_defaults_documented about terms regenerated by gen/gen_plumbing.py from /repo's source on every run. The loop models are tied to srlife by driving each real loop with scripted residual-norm sequences (complete decision tree over 8 norm classes for small budgets plus random scripts) and comparing outcome and evaluation counts exactly; plumbing is also checked on real objects with distinguishable values; real convergent, singular and non-finite problems are solved and the residual recomputed at the returned point.",
+   note="Trusted: Lean kernel + Mathlib (propext/Classical.choice/Quot.sound); the ast translator (self-checked on real objects every run); the stubs used to script the FE and Picard loops; x/0 modelled for x >= 0 only. The wiring across functions the translator does not parse (solve_metal, solve_fluid, PythonTubeSolver.solve -> PythonSolver.options) is declared by hand and checked dynamically.",
+   design="4/C17"),
+ "C20": dict(
+   technique="translator regenerating a Lean model of every shipped data file each run + Lean 4 proofs by reflection (Bernstein sign certificates, table checkers with hand-proved soundness, decide +kernel) + exhaustive real loading and round trips",
+   text="Theorems about Gen.Data (regenerated from srlife/data on every run): thermal_positive, rupture_antitone_stress, rupture_antitone_temp, fatigue_antitone, envelope_points, ceramic_positive, pw_at_knot, pw_deriv_is_slope, xml_roundtrip, array_roundtrip, loader_total, each resting on a computable certificate closed by kernel evaluation and a soundness lemma proved once (so a harmless data edit re-proves itself and a property-breaking one fails, naming the item). Tied to srlife by evaluating the generated correlations in Lean against the real evaluators (1e-10), loading every (file, variant) through the documented loaders incl. NEML models, real save->load of every model type, and dense sweeps of the real code for positivity/monotonicity/knots/slopes.",
+   note="Trusted: Lean kernel + Mathlib; gen/gen_data.py (self-checked against the real evaluators each run); spec ranges in spec/ranges.json ([1,1000] MPa, strain range <= 0.05, T > 0); repr(float) round trip as an explicit hypothesis of array_roundtrip. Open finding F26 (keys that are not XML names).",
+   design="4/C20"),
 }
 PENDING_REASON = "check not built yet in this round (work in progress; see DESIGN.md section 4 for the planned model and theorems) — not claimed"
 
